@@ -279,8 +279,17 @@ where
     }
 
     fn deserialize_filters(buf: &[u8]) -> Result<(Bloom, RangeFilter<K>, usize)> {
+        // a damaged index file must be reported (the index is then regenerated), not panic in `split_at`
+        if buf.len() < size_of::<u64>() {
+            let param = crate::error::ValidationErrorKind::IndexChecksum;
+            return Err(Error::validation(param, "index filters section is too short").into());
+        }
         let (range_size_buf, rest_buf) = buf.split_at(size_of::<u64>());
         let range_size = deserialize(&range_size_buf)?;
+        if range_size > rest_buf.len() {
+            let param = crate::error::ValidationErrorKind::IndexChecksum;
+            return Err(Error::validation(param, "index filters section is corrupted").into());
+        }
         let (range_buf, bloom_buf) = rest_buf.split_at(range_size);
         let bloom = Bloom::from_raw(bloom_buf)?;
         let range = RangeFilter::<K>::from_raw(range_buf)?;
